@@ -37,20 +37,21 @@ func c16Sets() []*sgen.Schema {
 	return []*sgen.Schema{
 		bases[2],
 		{Defs: []*sgen.Def{
-			{Kind: sgen.KObject, Name: "Query", Fields: []*sgen.Field{f("n", N("Named")), f("u", N("AB")), f("all", L(NN(N("Named"))))}},
-			{Kind: sgen.KInterface, Name: "Named", Fields: []*sgen.Field{f("name", N("String"))}},
-			{Kind: sgen.KObject, Name: "A", Implements: []string{"Named"}, Fields: []*sgen.Field{f("name", N("String")), f("peer", N("B"))}},
-			{Kind: sgen.KObject, Name: "B", Implements: []string{"Named"}, Fields: []*sgen.Field{f("name", NN(N("String")))}},
-			{Kind: sgen.KUnion, Name: "AB", Members: []string{"A", "B"}},
+			{Kind: sgen.KObject, Name: "Query", Desc: "the root", Fields: []*sgen.Field{f("n", N("Named")), f("u", N("AB")), f("all", L(NN(N("Named"))))}},
+			// described definitions: whatever stands in front of them (a body-less extension, say) must end before the quote
+			{Kind: sgen.KInterface, Name: "Named", Desc: "has a name", Fields: []*sgen.Field{f("name", N("String"))}},
+			{Kind: sgen.KObject, Name: "A", Desc: "an A", Implements: []string{"Named"}, Fields: []*sgen.Field{f("name", N("String")), f("peer", N("B"))}},
+			{Kind: sgen.KObject, Name: "B", Desc: "a B", Implements: []string{"Named"}, Fields: []*sgen.Field{f("name", NN(N("String")))}},
+			{Kind: sgen.KUnion, Name: "AB", Desc: "either", Members: []string{"A", "B"}},
 		}},
 		{Defs: []*sgen.Def{
-			{Kind: sgen.KObject, Name: "Query", Fields: []*sgen.Field{f("f", N("Int"), &sgen.Arg{Name: "in", Type: N("Filter")}, &sgen.Arg{Name: "c", Type: N("Color"), HasDef: true, Default: world.EnumLit("RED")})}},
-			{Kind: sgen.KInput, Name: "Filter", Fields: []*sgen.Field{{Name: "c", Type: N("Color"), HasDef: true, Default: world.EnumLit("GREEN")}, {Name: "sub", Type: N("Filter")}}},
-			{Kind: sgen.KEnum, Name: "Color", Values: []*sgen.EnumVal{{Name: "RED"}, {Name: "GREEN", Dirs: []sgen.DirUse{{Name: "tag", Args: []sgen.KV{{Name: "n", Value: 9}}}}}}},
-			{Kind: sgen.KUnion, Name: "TU", Members: []string{"T"}, Dirs: []sgen.DirUse{{Name: "tag", Args: []sgen.KV{{Name: "n", Value: 4}}}}},
-			{Kind: sgen.KDirective, Name: "tag", Locations: []string{"OBJECT", "FIELD_DEFINITION", "ENUM_VALUE", "UNION"},
+			{Kind: sgen.KObject, Name: "Query", Desc: "the root", Fields: []*sgen.Field{f("f", N("Int"), &sgen.Arg{Name: "in", Type: N("Filter")}, &sgen.Arg{Name: "c", Type: N("Color"), HasDef: true, Default: world.EnumLit("RED")})}},
+			{Kind: sgen.KInput, Name: "Filter", Desc: "a filter", Fields: []*sgen.Field{{Name: "c", Type: N("Color"), HasDef: true, Default: world.EnumLit("GREEN")}, {Name: "sub", Type: N("Filter")}}},
+			{Kind: sgen.KEnum, Name: "Color", Desc: "a colour", Values: []*sgen.EnumVal{{Name: "RED"}, {Name: "GREEN", Dirs: []sgen.DirUse{{Name: "tag", Args: []sgen.KV{{Name: "n", Value: 9}}}}}}},
+			{Kind: sgen.KUnion, Name: "TU", Desc: "a union of one", Members: []string{"T"}, Dirs: []sgen.DirUse{{Name: "tag", Args: []sgen.KV{{Name: "n", Value: 4}}}}},
+			{Kind: sgen.KDirective, Name: "tag", Desc: "a tag", Locations: []string{"OBJECT", "FIELD_DEFINITION", "ENUM_VALUE", "UNION"},
 				Args: []*sgen.Arg{{Name: "names", Type: L(N("String")), HasDef: true, Default: []interface{}{"x"}}, {Name: "n", Type: N("Int"), HasDef: true, Default: 3}}},
-			{Kind: sgen.KObject, Name: "T", Dirs: []sgen.DirUse{{Name: "tag"}}, Fields: []*sgen.Field{{Name: "x", Type: N("Int"), Dirs: []sgen.DirUse{{Name: "tag", Args: []sgen.KV{{Name: "n", Value: 1}}}}},
+			{Kind: sgen.KObject, Name: "T", Desc: "tagged", Dirs: []sgen.DirUse{{Name: "tag"}}, Fields: []*sgen.Field{{Name: "x", Type: N("Int"), Dirs: []sgen.DirUse{{Name: "tag", Args: []sgen.KV{{Name: "n", Value: 1}}}}},
 				// an explicit null is a value: the argument's default must not replace it, wherever the directive definition arrives
 				{Name: "y", Type: N("Int"), Dirs: []sgen.DirUse{{Name: "tag", Args: []sgen.KV{{Name: "n", Value: nil}, {Name: "names", Value: nil}}}}}}},
 		}},
